@@ -42,12 +42,19 @@ CHECKS["C09"] = (
     "model_checking",
     "QuerySem!Denote gives each hit's score as the documented composition (sum over matching clauses, max for "
     "DisjunctionMax, first operand for Require/AndNot, first plus second for AndMaybe, constants, boosts incl. "
-    "document boosts); TLC judges the scores of recorded unlimited searches on multi-segment indexes.",
+    "document boosts); TLC judges the scores of recorded unlimited searches on multi-segment indexes. For every "
+    "shipped weighting (BM25F variants, TF_IDF, PL2, DFree, Frequency, Multi/Function/Reverse, a final() hook) TLC "
+    "also judges (QueryCheck 'layouts') that a deletion-free corpus gives every document the same score in one "
+    "segment and in several, and (QueryCheck 'termstats') that the statistics the formulas are fed with (N, df, "
+    "collection weight, total and per-document field length, per-document weight) are the corpus model's; the "
+    "BM25F/TF_IDF term scores are then compared with the documented formula of those statistics.",
     "DESIGN.md 5 (C09)",
-    "Exact regime (scoring.Frequency): decides the *composition*, not the float formula of BM25F/PL2/DFree "
-    "(numeric accuracy is outside this family). Scores of Not/phrase/multi-term clauses in scoring position are "
-    "not asserted (the documentation does not fix them).",
-    "TLA+ denotational score semantics evaluated by TLC over recorded searches")
+    "The composition is decided exactly in the exact regime (scoring.Frequency). Floating-point formulas cannot be "
+    "evaluated by TLC: their *inputs* are decided by TLC and the formula itself is re-evaluated in the harness with a "
+    "relative tolerance of 1e-9; layout independence is judged on scores interned with the same tolerance (the "
+    "summation order legitimately depends on the layout). Scores of Not/phrase/multi-term clauses in scoring position "
+    "are not asserted (the documentation does not fix them). PL2/DFree formulas are covered by layout independence only.",
+    "TLA+ denotational score semantics, layout-independence and statistics clauses evaluated by TLC over recorded searches")
 
 CHECKS["C11"] = (
     "model_checking",
